@@ -122,13 +122,43 @@ def crafted_permuted_parameters():
     return out
 
 
+def crafted_forall_accumulation():
+    """a quantified increase / decrease whose instances all reach the same ground fluent (the target does not mention the quantified variable)
+    next to a condition on the accumulated value: the two validators must agree on how often the amount is applied"""
+    from unified_planning.shortcuts import Problem, Fluent, InstantaneousAction, UserType, Object, Variable, IntType, BoolType, Equals, GE
+    out = []
+    for decrease in (False, True):
+        for goalv in ((3, 2, 1) if not decrease else (7, 8, 9)):
+            T_ = UserType("T4a")
+            pr = Problem(f"forall_accumulation_{'dec' if decrease else 'inc'}_{goalv}")
+            o1, o2 = Object("o1", T_), Object("o2", T_)
+            pr.add_objects([o1, o2])
+            total, w, done = Fluent("total", IntType(0, 20)), Fluent("w", IntType(0, 5), x=T_), Fluent("done", BoolType())
+            pr.add_fluent(total, default_initial_value=10 if decrease else 0)
+            pr.add_fluent(w, default_initial_value=0)
+            pr.add_fluent(done, default_initial_value=False)
+            pr.set_initial_value(w(o1), 1)
+            pr.set_initial_value(w(o2), 2)
+            v = Variable("v", T_)
+            a = InstantaneousAction("sumup")
+            (a.add_decrease_effect if decrease else a.add_increase_effect)(total, w(v), forall=[v])
+            fin = InstantaneousAction("finish")
+            fin.add_precondition(Equals(total, goalv))
+            fin.add_effect(done, True)
+            pr.add_action(a)
+            pr.add_action(fin)
+            pr.add_goal(done)
+            out.append((9300000 + len(out), pr))
+    return out
+
+
 def bounded(tier, seed):
     from unified_planning.engines.plan_validator import SequentialPlanValidator, TimeTriggeredPlanValidator
     from unified_planning.engines.results import ValidationResultStatus
     from unified_planning.plans import SequentialPlan, TimeTriggeredPlan, ActionInstance
     nprob, maxlen, cap, nsched = (50, 2, 40, 2) if tier == "quick" else (400, 3, 100, 3)
     failures, evals, nontrivial, samples = [], 0, set(), []
-    for s, pr in itertools.chain(crafted_half_bounded(), crafted_permuted_parameters(), SC.problems(seed + 29, nprob, features={"max_actions": 2})):
+    for s, pr in itertools.chain(crafted_half_bounded(), crafted_permuted_parameters(), crafted_forall_accumulation(), SC.problems(seed + 29, nprob, features={"max_actions": 2})):
         if not SequentialPlanValidator.supports(pr.kind) or not TimeTriggeredPlanValidator.supports(pr.kind):
             continue
         gas = seqsem.ground_actions(pr)
